@@ -10,6 +10,7 @@ pub mod digest;
 pub mod distinfo;
 pub mod names;
 pub mod pattern;
+pub mod plist;
 pub mod summary;
 
 #[derive(Default)]
@@ -62,6 +63,8 @@ pub fn run(st: &mut State, op: &str, input: &Value) -> Option<Out> {
         "distparse" => Some(distinfo::distparse(input)),
         "distbuild" => Some(distinfo::distbuild(input)),
         "verify" => Some(distinfo::verify(input)),
+        "plist" => Some(plist::plist(input)),
+        "plistline" => Some(plist::plistline(input)),
         "digest" => Some(digest::digest(input)),
         "algname" => Some(digest::algname(input)),
         "hashvec" => Some(digest::hashvec(input)),
